@@ -194,15 +194,18 @@ func (g *c11Gen) history() {
 	if rng.Intn(2) == 0 {
 		kinds = append(kinds, "mal")
 	}
-	if c11DoubleDebitBin() != nil && rng.Intn(3) == 0 {
+	if rng.Intn(2) == 0 { // hand-assembled adversarial tokens (c11_dd_test.go)
 		kinds = append(kinds, "dd")
+	}
+	if rng.Intn(3) == 0 {
+		kinds = append(kinds, "fr")
 	}
 	for _, k := range kinds {
 		deployer := g.accts[rng.Intn(2)]
 		seq, _ := w.app.AccountKeeper.GetSequence(w.ctx, deployer.Bytes())
 		c := crypto.CreateAddress(deployer, seq)
 		init := big.NewInt(0)
-		if k != "mb" {
+		if k == "dbm" || k == "mal" { // the preset tokens mint an initial supply to the deployer
 			init = big.NewInt(int64(1000 + rng.Intn(100000)))
 		}
 		g.do(fmt.Sprintf("deploy %s %s %s %s", k, c11Hex(c), c11Hex(deployer), init))
@@ -215,7 +218,7 @@ func (g *c11Gen) history() {
 				continue
 			}
 			amt := big.NewInt(int64(1 + rng.Intn(1000)))
-			if k == "mb" || k == "dd" {
+			if k == "mb" || k == "dd" || k == "fr" {
 				if rng.Intn(10) == 0 {
 					amt = new(big.Int).Lsh(big.NewInt(1), uint(100+rng.Intn(150)))
 				}
